@@ -259,6 +259,21 @@ def c12_create(ex, S, T):
     return out
 
 
+def c12_create_snapshot(ex, S, T):
+    """snapshot names are global: creating a name that is taken answers AlreadyExists (whatever topic the existing snapshot belongs to)
+    and changes nothing"""
+    out = []
+    a = S.args
+    taken = Or(*[And(r.exists, ex.eq(r.v['name'], a['snap_name'])) for r in S.pre['Snapshot']])
+    out.append(('taken-snapshot-name-is-AlreadyExists', Implies(taken, is_err(S.err, ERR_EXISTS, 'already exists'))))
+    if S.err is not None:
+        for en in reldb.ENTITIES:
+            out.append(('failed-create-no-change:' + en, table_same(ex, S.pre[en], S.post[en])))
+    else:
+        out.append(('create-succeeds-only-on-free-name', Not(taken)))
+    return out
+
+
 def c12_delete(ex, S, T):
     out = []
     a = S.args
@@ -335,6 +350,8 @@ def sel(T):
         return [c12_create]
     if T.kind in ('delete-topic', 'delete-sub'):
         return [c12_delete]
+    if T.kind == 'create-snapshot':
+        return [c12_create_snapshot]
     return []
 
 
